@@ -1,2 +1,64 @@
+import PelProofs.FramesPel
+import PelProofs.PelPropsAux
+/-
+  C05 — Malformed PELs are rejected cleanly: never a hang, crash or fabricated decode.
+  (Termination: every function of the model is total – structural or fuelled recursion – so `parsePEL` returns
+  one of the four outcomes for every byte string; the real code's exit status / traceback / timing is observed.)
+-/
 namespace Pel.C05
+
+/-- ★ every proper prefix of a well-formed (selected) PEL is rejected with an error: nothing is decoded from
+    missing bytes -/
+theorem prefix_rejected (env : Env) (cfg : SelCfg) (p : APel) (hp : p.WF)
+    (hsel : considerPEL p.uh.sev p.uh.af cfg = true) (d : J) (hr : render env p = .ok d)
+    (hnames : (sectionName env.T sidPH :: sectionName env.T sidUH ::
+        numberNames (p.sections.map (fun sec => sectionName env.T sec.body.id))
+                    (p.sections.map (fun sec => sectionName env.T sec.body.id))).Nodup)
+    (k : Nat) (hk : k < p.enc.length) :
+    ∃ e, parsePEL env cfg (p.enc.take k) = .error e := by
+  obtain ⟨e, he⟩ := (frames_pel env cfg p hp hsel d hr hnames).strict k hk
+  exact ⟨e, by simp only [parsePEL, he]⟩
+
+/-- the same at the level of one section: a section cut short is rejected -/
+theorem section_prefix_rejected (env : Env) (creator : Text) (sec : ASection) (hs : sec.WF) (j : J)
+    (hr : renderSection env creator sec = .ok j) (k : Nat) (hk : k < sec.enc.length) :
+    ∃ e, decodeOne env creator (sec.enc.take k) = .error e :=
+  (frames_section env creator sec hs j hr).strict k hk
+
+/-- ★ reads never go past the end of the input: a successful read returns exactly the next `n` bytes and leaves
+    exactly the rest -/
+theorem reads_in_bounds (n : Nat) (st m r : Bytes) (h : getMem n st = .ok (m, r)) :
+    st = m ++ r ∧ m.length = n ∧ 0 < n := by
+  unfold getMem at h
+  split at h
+  · cases h
+  · rename_i hn
+    split at h
+    · rename_i hle
+      cases h
+      exact ⟨(List.take_append_drop n st).symm, by simp [List.length_take]; omega, by omega⟩
+    · cases h
+
+/-- a read of more bytes than remain fails (it does not return a short slice) -/
+theorem read_past_end_fails (n : Nat) (st : Bytes) (h : st.length < n) : ∃ e, getMem n st = .error e := by
+  refine ⟨.range, ?_⟩
+  unfold getMem
+  rw [if_neg (by omega), if_neg (by omega)]
+
+/-- ★ whatever the input, the decoder consumes a prefix of it: the bytes it has not consumed are a suffix of the
+    input (no read ever addresses bytes outside the file) -/
+theorem consumes_prefix (env : Env) (cfg : SelCfg) (b : Bytes) (o : Outcome) (rest : Bytes)
+    (h : parsePELRd env cfg b = .ok (o, rest)) : ∃ used, b = used ++ rest :=
+  Suffixing.parsePELRd env cfg b o rest h
+
+/-- the command line maps every outcome to exit status 0 or 1: only a wrong first/second section id under
+    `--file` exits with 1, every other outcome (document, filtered, caught exception) exits with 0 -/
+def fileModeExit : Outcome → Nat
+  | .badHeader => 1
+  | _ => 0
+
+theorem exit_status_0_or_1 (env : Env) (cfg : SelCfg) (b : Bytes) :
+    fileModeExit (parsePEL env cfg b) = 0 ∨ fileModeExit (parsePEL env cfg b) = 1 := by
+  cases parsePEL env cfg b <;> simp [fileModeExit]
+
 end Pel.C05
